@@ -248,6 +248,10 @@ var (
 	c02Main = &c02Tree{Name: "root", Table: c02Table, IDBase: 10}
 	c02M    = &c02Tree{Name: "m", Table: c02MTable, IDBase: 200}
 	c02S    = &c02Tree{Name: "s", Table: c02STable, IDBase: 400}
+	// c02Q: a second copy of the main tree (same table, same identities, sizes and modification
+	// times, hence the same Gen_C02b.gen_c02_fixture) under <base>/q/root: the root of the sites
+	// the request/disk-change SEQUENCES run on (c02_seq.go), so that no other case sees a swap
+	c02Q = &c02Tree{Name: "q", Table: c02Table, IDBase: 10}
 )
 
 func (t *c02Tree) all() []c02Ent {
@@ -497,6 +501,7 @@ type c02Fix struct {
 	base, root string
 	mbase      string // the tree of the multi-site Casketfiles
 	sroot      string // the root of the symlink site
+	qroot      string // the root of the sites the sequences run on (c02Q)
 	err        string
 }
 
@@ -518,7 +523,7 @@ func c02Fixture() *c02Fix {
 	base := fmt.Sprintf("/var/tmp/verif-C02-fix-%d", os.Getpid())
 	os.RemoveAll(base)
 	root := filepath.Join(base, "root")
-	f := &c02Fix{base: base, root: root, mbase: filepath.Join(base, "m"), sroot: filepath.Join(base, "s", "root")}
+	f := &c02Fix{base: base, root: root, mbase: filepath.Join(base, "m"), sroot: filepath.Join(base, "s", "root"), qroot: filepath.Join(base, "q", "root")}
 	c02F = f
 	fail := func(err error) *c02Fix { f.err = err.Error(); return f }
 	// a reaper removes the fixture when this process is gone (however it ends)
@@ -548,7 +553,7 @@ func c02Fixture() *c02Fix {
 	for _, t := range []struct {
 		t   *c02Tree
 		dir string
-	}{{c02Main, root}, {c02M, f.mbase}, {c02S, f.sroot}} {
+	}{{c02Main, root}, {c02M, f.mbase}, {c02S, f.sroot}, {c02Q, f.qroot}} {
 		if err := t.t.write(base, t.dir); err != nil {
 			return fail(err)
 		}
@@ -674,8 +679,15 @@ var c02ArchiveTypes = []string{"zip", "tar", "tar.gz", "tar.xz", "tar.br", "tar.
 
 var c02Sites = map[string]*liveSite{}
 
-func c02Site(kind string) (*liveSite, error) {
-	if s, ok := c02Sites[kind]; ok {
+func c02Site(kind string) (*liveSite, error) { return c02SiteOn(kind, false) }
+
+// c02SiteOn: the site of a kind on the main root, or (seq) its twin rooted in c02Q's copy
+func c02SiteOn(kind string, seq bool) (*liveSite, error) {
+	regKey := kind
+	if seq {
+		regKey = "seq:" + kind
+	}
+	if s, ok := c02Sites[regKey]; ok {
 		return s, nil
 	}
 	fx := c02Fixture()
@@ -686,6 +698,9 @@ func c02Site(kind string) (*liveSite, error) {
 	body := "root " + fx.root + "\n"
 	internal := c02Internal
 	origin := filepath.Join(fx.base, c02Origin(kind))
+	if seq {
+		body, origin = "root "+fx.qroot+"\n", filepath.Join(fx.base, "q", c02Origin(kind))
+	}
 	if kind == "symlink" {
 		body, internal, origin = "root "+fx.sroot+"\n", c02SInternal, filepath.Join(fx.sroot, "Casketfile")
 	}
@@ -719,7 +734,7 @@ func c02Site(kind string) (*liveSite, error) {
 	}
 	_, port, _ := net.SplitHostPort(srvs[0].Addr().String())
 	s := &liveSite{inst: inst, addr: "127.0.0.1:" + port, text: body}
-	c02Sites[kind] = s
+	c02Sites[regKey] = s
 	return s, nil
 }
 
@@ -906,6 +921,10 @@ type c02In struct {
 	// httpContext.siteConfigs) the request is sent to, with that site's Host header
 	Multi []c02MEl `json:"multi,omitempty"`
 	Pos   int      `json:"pos,omitempty"`
+	// a SEQUENCE on one running site (c02_seq.go): the steps (requests, files / directories of the
+	// root replaced on disk by new inodes) that come before the judged request. Cases with steps run
+	// on sites of their own, rooted in c02Q.
+	Pre []c02Step `json:"pre,omitempty"`
 }
 
 type c02Member struct {
@@ -1048,7 +1067,10 @@ func c02Target(in *c02In) (addr, host string, tree *c02Tree, err error) {
 		port := mi.ports[el.Port]
 		return fmt.Sprintf("127.0.0.1:%d", port), fmt.Sprintf("s%d.c02.test:%d", in.Pos, port), c02M, nil
 	}
-	st, err := c02Site(in.Site)
+	if len(in.Pre) > 0 && (in.Site == "symlink" || strings.HasPrefix(in.Site, "prefix")) {
+		return "", "", nil, fmt.Errorf("sequences run on the sites of the main tree without a path prefix")
+	}
+	st, err := c02SiteOn(in.Site, len(in.Pre) > 0)
 	if err != nil {
 		return "", "", nil, err
 	}
@@ -1056,12 +1078,18 @@ func c02Target(in *c02In) (addr, host string, tree *c02Tree, err error) {
 	if in.Site == "symlink" {
 		tree = c02S
 	}
+	if len(in.Pre) > 0 {
+		tree = c02Q
+	}
 	return st.addr, st.addr, tree, nil
 }
 
 func c02Do(in *c02In) (c02Obs, error) {
 	addr, host, tree, err := c02Target(in)
 	if err != nil {
+		return c02Obs{}, err
+	}
+	if err := c02RunPre(in, addr, host, tree); err != nil {
 		return c02Obs{}, err
 	}
 	hdr := map[string]string{"Host": host}
@@ -1377,6 +1405,15 @@ func c02Run(in0 interface{}) Result {
 		sitePrefix = "/pre"
 	}
 	site := cApp("mksite", cStr(fx.root), cStr(filepath.Join(fx.base, c02Origin(in.Site))), cStr(sitePrefix), cStr(scope), cStrList(types))
+	if len(in.Pre) > 0 {
+		// a sequence: after every disk step the tree is again the table's (c02Swap re-verifies it), so
+		// the judged request is an ordinary case on the twin site — the model and the property are
+		// functions of the CURRENT file system and of nothing that happened before
+		site = cApp("mksite", cStr(fx.qroot), cStr(filepath.Join(fx.base, "q", c02Origin(in.Site))), cStr(sitePrefix), cStr(scope), cStrList(types))
+		pb, _ := json.Marshal(in.Pre)
+		return Result{Term: cApp("CReq", site, req, ob), Obs: o, Sig: "seq:" + outsideTok(c02Sig(in, p, query)), Nontrivial: nontrivial,
+			Key: "seq|" + string(pb) + "|" + key, Class: "seq:" + c02SeqShape(in.Pre) + ":" + class}
+	}
 	if prefixSite {
 		sig := c02Sig(in, p, query)
 		if (strings.HasPrefix(p, "//") || strings.HasPrefix(strings.TrimPrefix(c02EscapedPath(in.Target), "/pre"), "//")) && !strings.HasPrefix(sig, "browse:listing:") {
@@ -1836,6 +1873,7 @@ func c02Gen(r *Rand, tier string) []interface{} {
 
 	// multi-site Casketfiles
 	out = append(out, c02GenMulti(r, thorough)...)
+	out = append(out, c02GenSeq(r, thorough)...)
 
 	// the symlink site (contract only)
 	for _, t := range []string{"/", "/l/", "/l", "/l/to-in", "/l/to-dir", "/l/to-dir/", "/l/to-dir/f.txt", "/l/to-casket", "/l/to-secret", "/l/to-out", "/l/to-abs", "/l/to-outdir", "/l/to-outdir/",
@@ -1995,7 +2033,7 @@ func c02GenMulti(r *Rand, thorough bool) []interface{} {
 func init() {
 	register(&Property{
 		ID: "C02", Imports: "V.Lib V.GoPath V.Gen_C02 V.Gen_C02b V.C02_Model", Judge: "judge", Shard: 285,
-		Rule:   "real in-process sites (static; browse / with every archive type; browse /dir with zip, tar.gz; the same root under a site path prefix /pre; the origin Casketfile in a sub-directory of the root / outside it / in a sibling directory named root+x) rooted in a fixture with files, nested directories, index pages (incl. a directory named index.html and a hidden index page), .gz/.br/.zst siblings (incl. a hidden one and a directory named like one), hard links, odd names, the origin Casketfile inside the root, `internal`-hidden files and an `internal`-hidden directory, plus token files outside the root; raw request lines: exhaustive targets of depth <= 2 (3 sampled / full) over the segment alphabet {a.txt, dir, ., .., empty, %2e, %2E%2e, %2f, backslash, %5c, A.TXT, Casketfile, x} x trailing slash (static; sampled on browse with ?archive=); every directory x archive types / sort orders / JSON; open-redirect shapes (1..5 leading slashes x foreign first segment x dot-dot x directory or file-with-slash); every file x Accept-Encoding subsets and decoys; random respellings (dot segments, doubled / encoded slashes and dots, case flips, backslashes, climbing above the root, NUL) x methods x queries. MULTI-SITE Casketfiles written to disk and loaded from there (2-3 sites s0/s1/s2.c02.test, every ordered pair and sampled / every ordered triple over the root relations {contains the Casketfile directly, in a sub-directory, not at all (below / beside), sibling with a string-prefix name}; one port, one per site, two sharing; root spelled cleaned / trailing slash / with /./ / with x/../ / not at all (default root); blocks with two addresses), requests to EVERY site with its Host header: the Casketfile under every name it has in that root, its directory as HTML / JSON listing and as archive, random respellings; every directory x 24 spellings of ?limit= (HTML / JSON, sort, order); HEAD beside GET for every file and every hidden spelling (the file a header describes is identified by ETag, Content-Length, Last-Modified); a site with symbolic links (judged against the executable property only). Prefix-site cases are modelled like the others (the path the handlers see is computed as trimPathPrefix does); those whose path does not start with the prefix never reach the site and are judged against the executable property only (CContract). Non-trivial = answers 200 or 3xx",
+		Rule:   "real in-process sites (static; browse / with every archive type; browse /dir with zip, tar.gz; the same root under a site path prefix /pre; the origin Casketfile in a sub-directory of the root / outside it / in a sibling directory named root+x) rooted in a fixture with files, nested directories, index pages (incl. a directory named index.html and a hidden index page), .gz/.br/.zst siblings (incl. a hidden one and a directory named like one), hard links, odd names, the origin Casketfile inside the root, `internal`-hidden files and an `internal`-hidden directory, plus token files outside the root; raw request lines: exhaustive targets of depth <= 2 (3 sampled / full) over the segment alphabet {a.txt, dir, ., .., empty, %2e, %2E%2e, %2f, backslash, %5c, A.TXT, Casketfile, x} x trailing slash (static; sampled on browse with ?archive=); every directory x archive types / sort orders / JSON; open-redirect shapes (1..5 leading slashes x foreign first segment x dot-dot x directory or file-with-slash); every file x Accept-Encoding subsets and decoys; random respellings (dot segments, doubled / encoded slashes and dots, case flips, backslashes, climbing above the root, NUL) x methods x queries. MULTI-SITE Casketfiles written to disk and loaded from there (2-3 sites s0/s1/s2.c02.test, every ordered pair and sampled / every ordered triple over the root relations {contains the Casketfile directly, in a sub-directory, not at all (below / beside), sibling with a string-prefix name}; one port, one per site, two sharing; root spelled cleaned / trailing slash / with /./ / with x/../ / not at all (default root); blocks with two addresses), requests to EVERY site with its Host header: the Casketfile under every name it has in that root, its directory as HTML / JSON listing and as archive, random respellings; every directory x 24 spellings of ?limit= (HTML / JSON, sort, order); HEAD beside GET for every file and every hidden spelling (the file a header describes is identified by ETag, Content-Length, Last-Modified); a site with symbolic links (judged against the executable property only); SEQUENCES on one running site (twin sites rooted in a second copy of the main tree): a request that evaluates the hide list, then a hide-list entry (origin Casketfile, internal files, hidden sibling, hidden index page, hidden directory) or its directory or a visible control replaced on disk by a new inode (write + rename, directories swapped whole; tree re-verified against the table), then the entry asked for again directly (spellings), below it, via sibling / index page, in HTML / JSON listings and archives of its directory and of the root; longer histories (request, swap, request, swap, request) with every request judged. Prefix-site cases are modelled like the others (the path the handlers see is computed as trimPathPrefix does); those whose path does not start with the prefix never reach the site and are judged against the executable property only (CContract). Non-trivial = answers 200 or 3xx",
 		Gen:    c02Gen,
 		Decode: func(raw json.RawMessage) (interface{}, error) { in := &c02In{}; return in, json.Unmarshal(raw, in) },
 		Run:    c02Run,
